@@ -476,6 +476,7 @@ fn parse_one<L: Language + 'static>(kind: &str, text: &str) -> String {
         "recexpr" => match RecExpr::<L>::parse(text) { Ok(p) => format!("ok wf=true {}", p), Err(_) => "err".to_string() },
         "multi" => match MultiPattern::<L>::parse(text) { Ok(p) => format!("ok wf=true {}", p), Err(_) => "err".to_string() },
         "roundtrip" => match Pattern::<L>::parse(text) { Ok(p) => { let t2 = p.to_string(); match Pattern::<L>::parse(&t2) { Ok(p2) => format!("ok same={} {}", p2.to_string() == t2 && p2 == p, t2), Err(_) => format!("reparse-err {}", t2) } }, Err(_) => "err".to_string() },
+        "multirt" => match MultiPattern::<L>::parse(text) { Ok(p) => { let t2 = p.to_string(); match MultiPattern::<L>::parse(&t2) { Ok(p2) => format!("ok same={} {}", p2.to_string() == t2, t2), Err(_) => format!("reparse-err {}", t2) } }, Err(_) => "err".to_string() },
         _ => panic!("natdiff: parse kind"),
     }));
     match r { Ok(s) => s, Err(e) => format!("panic {}", if let Some(s) = e.downcast_ref::<String>() { s.clone() } else if let Some(s) = e.downcast_ref::<&str>() { s.to_string() } else { "?".to_string() }) }
